@@ -14,12 +14,30 @@ theorem Dyn.congr {K : SCtx} {k : Ctx} {sub : Bool} {s s' : St} (h : Dyn K k sub
   ⟨h1 ▸ h.cerr, h2 ▸ h.csub, h3 ▸ h.fok, h4 ▸ h.ht, h5 ▸ h.eign, h6 ▸ h.noe, h7 ▸ h.sfn,
    h8 ▸ h.inl⟩
 
+/-- Commands after which the runner may already be `exiting` while `BashSem` still has to make
+    its errexit test: a function call that ended in `return n` under `set -e`, a pipeline whose
+    last stage (run in the runner itself) failed under `set -e`. -/
+def softCmd : Cmd → Bool
+  | .call _ => true
+  | .pipe _ _ => true
+  | _ => false
+
+/-- "The runner is exiting because of errexit; `BashSem` completed the command normally with a
+    non-zero status and will exit at its errexit test." -/
+def Pending (K : SCtx) (k : Ctx) (sub : Bool) (c : Cmd) (s s' : St) (fl : Flow) (e' : Env) : Prop :=
+  fl = .norm ∧ softCmd c = true ∧ e' = absEnvC s' ∧ Dyn K k sub s' ∧ Frame s s' ∧ NoPending s' ∧
+    s'.exit.returning = false ∧ s'.exit.exiting = true ∧ s'.errexit = true ∧
+    s'.noErrExit = false ∧ s'.exit.code ≠ 0
+
+/-- The relation for commands. -/
+def PostC (K : SCtx) (k : Ctx) (sub : Bool) (c : Cmd) (s s' : St) (fl : Flow) (e' : Env) : Prop :=
+  Post K k sub False (isChecked c = false ∧ tailOkC c = true) s s' fl e' ∨ Pending K k sub c s s' fl e'
+
 /-- The statement of the simulation for commands at fuel `n`. -/
 def SimC (n : Nat) : Prop :=
   ∀ (K : SCtx) (k : Ctx) (sub : Bool) (c : Cmd) (s : St),
     Stat K k sub → supCmd K c = true → Dyn K k sub s → LastOk s → NoPending s → s.exit = {} →
-    Rel (Post K k sub False (isChecked c = false ∧ tailOkC c = true) s)
-      (run n (.cmd c) s) (sem n k (.cmd c) (absEnv s))
+    Rel (PostC K k sub c s) (run n (.cmd c) s) (sem n k (.cmd c) (absEnv s))
 
 /-- … for statements. -/
 def SimS (n : Nat) : Prop :=
